@@ -694,6 +694,19 @@ func Gen(prop, tier string, seed, run uint64) Plan {
 			viewOps = append(viewOps, Op{C: CView, K: "ReleaseView", V: v})
 		}
 	}
+	if prop == "C20" {
+		// read-only calls on the viewer's goroutine while the other client changes
+		// tags and converters: stderr of a converter process, the first page of a
+		// result list with every tag prefetched
+		for i, m := 0, 2+r.IntN(4); i < m; i++ {
+			o := Op{C: CView, K: "PrefetchPage", Def: []string{"sort:id limit:1", "sort:-id limit:2", "sort:sport limit:1"}[r.IntN(3)]}
+			if len(p.Converters) > 0 && r.IntN(2) == 0 {
+				o = Op{C: CView, K: "ConvStderr", Conv: p.Converters[r.IntN(len(p.Converters))]}
+			}
+			at := r.IntN(len(viewOps) + 1)
+			viewOps = append(viewOps[:at], append([]Op{o}, viewOps[at:]...)...)
+		}
+	}
 	if (prop == "C09" || prop == "C12" || prop == "C13") && r.IntN(4) == 0 {
 		// fault: an upload that is not a capture file at all, a cut one, or a
 		// well-formed capture without a single packet
